@@ -213,6 +213,13 @@ def exc_name(exc):
     return exc.cls.name if isinstance(exc, ip.Obj) else repr(exc)
 
 
+def exc_desc(exc):
+    if isinstance(exc, ip.Obj):
+        at = getattr(exc, 'raised_at', None)
+        return '%s%r%s' % (exc.cls.name, exc.fields.get('args'), ' [at %s]' % at if at else '')
+    return repr(exc)
+
+
 def bad_events(st, allow=()):
     """side obligations recorded by kernel contracts: index misalignment, BLAS preconditions"""
     out = []
